@@ -7,6 +7,9 @@
 //	          end it overwrites <file> (if it exists) with content <v> — a formatter, a generator.  A task is hashed when
 //	          its turn comes, so the inputs it is judged on (INP) are those it SAW then: the tree after the effects of
 //	          the commands that ran before it in this invocation (reference snapshots taken after every Runner call).
+//	t.<file>  touches the file: its modification time moves on by an hour, nothing else changes (a checkout, a restore from
+//	          backup, `touch`): the inputs are what they were.   w.<file>.4 writes "1v1", w.<file>.5 a sparse file of 64 MiB + 1.
+//	T<k>l ... the same history in a project whose `src` directory is a SYMBOLIC LINK to a directory kept outside the project
 //	y.<Task>  toggles another side effect (in-process mode): the task's command REMOVES THE CACHE (`rm -rf .spok`, a
 //	          home-made clean task) when it runs to its end.  Reported as CR R<j> (the j-th command of the invocation did
 //	          it): from then on the cache has been removed — nothing recorded before may license a skip in a LATER
@@ -104,12 +107,14 @@ func killApplet() {
 
 // index 5 is reserved (spokfileItem); index 6 is a file whose NAME is full of glob meta-characters but has no `*`: a
 // literal dependency, the file of exactly that name
-var files = []string{"a", "b", "src/x", "src/y", "src/a", "\x00reserved", "q[x]{y,z}?.t"}
+// index 7: a FILE called like task A; index 8: "b1" — with "b" a pair whose path‖content strings can coincide ("b"+"1v1" = "b1"+"v1")
+var files = []string{"a", "b", "src/x", "src/y", "src/a", "\x00reserved", "q[x]{y,z}?.t", "A", "b1"}
 
 type taskDef struct {
-	name  string
-	deps  []string // file dependencies: a literal of `files`, or a glob ("src/*", "*")
-	tasks []string // task dependencies
+	name       string
+	deps       []string // file dependencies: a literal of `files`, or a glob ("src/*", "*")
+	tasks      []string // task dependencies
+	tasksFirst bool     // the task dependencies are written BEFORE the file dependencies
 }
 
 type template struct {
@@ -119,40 +124,56 @@ type template struct {
 
 var templates = []template{
 	// 0: literal, glob + task dependency, dependency-less task (the reconnaissance template)
-	{[]taskDef{{"A", []string{"a"}, nil}, {"B", []string{"src/*"}, []string{"A"}}, {"N", nil, nil}}, []int{0, 3}},
+	{[]taskDef{{"A", []string{"a"}, nil, false}, {"B", []string{"src/*"}, []string{"A"}, false}, {"N", nil, nil, false}}, []int{0, 3}},
 	// 1: two tasks sharing a file
-	{[]taskDef{{"A", []string{"a", "b"}, nil}, {"B", []string{"a"}, nil}}, []int{0, 1}},
+	{[]taskDef{{"A", []string{"a", "b"}, nil, false}, {"B", []string{"a"}, nil, false}}, []int{0, 1}},
 	// 2: two independent tasks (the D1 witnesses)
-	{[]taskDef{{"A", []string{"a"}, nil}, {"B", []string{"b"}, nil}}, []int{0, 1}},
+	{[]taskDef{{"A", []string{"a"}, nil, false}, {"B", []string{"b"}, nil, false}}, []int{0, 1}},
 	// 3: a file matched twice (glob and literal): multiplicity; the literal may be missing
-	{[]taskDef{{"A", []string{"src/*", "src/x"}, nil}}, []int{2, 3}},
+	{[]taskDef{{"A", []string{"src/*", "src/x"}, nil, false}}, []int{2, 3}},
 	// 4: a chain of three, a shared file
-	{[]taskDef{{"A", []string{"a"}, nil}, {"B", []string{"b"}, []string{"A"}}, {"C", []string{"src/*", "a"}, []string{"B"}}}, []int{0, 1, 3}},
+	{[]taskDef{{"A", []string{"a"}, nil, false}, {"B", []string{"b"}, []string{"A"}, false}, {"C", []string{"src/*", "a"}, []string{"B"}, false}}, []int{0, 1, 3}},
 	// 5: a glob that also matches a directory
-	{[]taskDef{{"A", []string{"*"}, nil}, {"N", nil, nil}}, []int{0, 1}},
+	{[]taskDef{{"A", []string{"*"}, nil, false}, {"N", nil, nil, false}}, []int{0, 1}},
 	// 6: a task with only a task dependency (no files: always runs)
-	{[]taskDef{{"A", []string{"src/*", "a"}, nil}, {"B", nil, []string{"A"}}}, []int{0, 2, 3}},
+	{[]taskDef{{"A", []string{"src/*", "a"}, nil, false}, {"B", nil, []string{"A"}, false}}, []int{0, 2, 3}},
 	// 7: a recursive glob over files with the same base name in different directories (a move keeps name and content)
-	{[]taskDef{{"A", []string{"**/a"}, nil}}, []int{0, 4}},
+	{[]taskDef{{"A", []string{"**/a"}, nil, false}}, []int{0, 4}},
 	// 8: a glob-only task whose glob can come to match nothing (src/x is removed in the focused family)
-	{[]taskDef{{"A", []string{"src/*"}, nil}, {"B", []string{"b"}, []string{"A"}}}, []int{2, 3, 1}},
+	{[]taskDef{{"A", []string{"src/*"}, nil, false}, {"B", []string{"b"}, []string{"A"}, false}}, []int{2, 3, 1}},
 	// 9: two tasks with the very same dependency list, the first of which may rewrite those files (a formatter, then a build)
-	{[]taskDef{{"A", []string{"src/*"}, nil}, {"B", []string{"src/*"}, []string{"A"}}}, []int{2, 3}},
+	{[]taskDef{{"A", []string{"src/*"}, nil, false}, {"B", []string{"src/*"}, []string{"A"}, false}}, []int{2, 3}},
 	// 10: a literal dependency whose name has glob meta-characters (but no `*`), next to a plain one
-	{[]taskDef{{"A", []string{"q[x]{y,z}?.t", "b"}, nil}}, []int{6, 1}},
+	{[]taskDef{{"A", []string{"q[x]{y,z}?.t", "b"}, nil, false}}, []int{6, 1}},
 	// 11: a glob whose last segment also matches the hidden directories at the top of the project (.hid, and .spok from the
 	// first run on), next to a literal in a subdirectory: hidden entries are left out, their neighbours are not
-	{[]taskDef{{"A", []string{"*", "src/x"}, nil}}, []int{0, 2}},
+	{[]taskDef{{"A", []string{"*", "src/x"}, nil, false}}, []int{0, 2}},
+	// 12: a file dependency spelled like a task dependency of the same task, the task written first: both count
+	{[]taskDef{{"A", []string{"a"}, nil, false}, {"B", []string{"A", "b"}, []string{"A"}, true}}, []int{7, 1, 0}},
+	// 13: a glob over two files whose names and contents can be cut differently to the same text ("b"+"1v1", "b1"+"v1")
+	{[]taskDef{{"A", []string{"b*"}, nil, false}}, []int{1, 8}},
+}
+
+// globalVars: every spokfile of this engine declares some global variables (none is used by a command): what they are
+// called, how many there are and in which order a map hands them out is no input of any task
+const globalVars = "VA := \"1\"\nVB := \"two\"\nVC := join(\"a\", \"b\")\nVD := \"4\"\nVE := \"\"\nVF := \"six\"\nVG := \"7\"\nVH := \"8\"\n\n"
+
+func (td taskDef) args() []string {
+	var fs []string
+	for _, d := range td.deps {
+		fs = append(fs, strconv.Quote(d))
+	}
+	if td.tasksFirst {
+		return append(append([]string{}, td.tasks...), fs...)
+	}
+	return append(fs, td.tasks...)
 }
 
 func (t template) text() string {
 	var b strings.Builder
+	b.WriteString(globalVars)
 	for _, td := range t.tasks {
-		var args []string
-		for _, d := range td.deps {
-			args = append(args, strconv.Quote(d))
-		}
-		args = append(args, td.tasks...)
+		args := td.args()
 		fmt.Fprintf(&b, "task %s(%s) {\n    run %s\n}\n\n", td.name, strings.Join(args, ", "), td.name)
 	}
 	return b.String()
@@ -161,12 +182,9 @@ func (t template) text() string {
 // binText is the spokfile of binary mode: the same tasks, the one command being the real thing (see the file comment)
 func (t template) binText() string {
 	var b strings.Builder
+	b.WriteString(globalVars)
 	for _, td := range t.tasks {
-		var args []string
-		for _, d := range td.deps {
-			args = append(args, strconv.Quote(d))
-		}
-		args = append(args, td.tasks...)
+		args := td.args()
 		n := td.name
 		cmd1 := `c=0; while read -r l; do case "$l" in *.2) c=$((c+1));; esac; done < $LOG; if test $((c+1)) = "$KILLAT"; then echo ` + n +
 			` > $CTL/killed; kill -$KILLSIG $$; fi; echo ` + n + ` >> $LOG`
@@ -222,6 +240,9 @@ type inputs struct {
 }
 
 func content(root string, f int) int {
+	if st, err := os.Stat(filepath.Join(root, files[f])); err == nil && st.Size() > 1<<20 {
+		return 5 // the big sparse file (not read here)
+	}
 	b, err := os.ReadFile(filepath.Join(root, files[f]))
 	if err != nil {
 		return 0
@@ -231,6 +252,12 @@ func content(root string, f int) int {
 	}
 	if len(b) == 0 {
 		return 3 // an empty file is a file like any other (event w.<f>.3)
+	}
+	if string(b) == "1v1" {
+		return 4
+	}
+	if len(b) > 1<<20 {
+		return 5 // the big sparse file
 	}
 	return 2
 }
@@ -257,6 +284,9 @@ func refInputs(root string, td taskDef, spokfileOnDisk bool) inputs {
 		case "**/a":
 			add(0)
 			add(4)
+		case "b*":
+			add(1)
+			add(8)
 		case "*":
 			add(0)
 			add(1)
@@ -312,7 +342,7 @@ func (in inputs) String() string {
 func (in inputs) natDigest() uint64 {
 	var a uint64
 	for _, x := range in.items {
-		a = a*64 + uint64(x[0]*4+x[1]+1)
+		a = a*128 + uint64(x[0]*8+x[1]+1)
 	}
 	return a
 }
@@ -837,7 +867,8 @@ func workCase(c string) string {
 		return "BAD-CASE"
 	}
 	binary := strings.HasSuffix(w[0], "b")
-	ti, err := strconv.Atoi(strings.TrimSuffix(w[0][1:], "b"))
+	linkedSrc := strings.HasSuffix(w[0], "l")
+	ti, err := strconv.Atoi(strings.TrimSuffix(strings.TrimSuffix(w[0][1:], "b"), "l"))
 	if err != nil || ti < 0 || ti >= len(templates) {
 		return "BAD-CASE"
 	}
@@ -863,6 +894,12 @@ func workCase(c string) string {
 		// the project directory's own name is full of glob meta-characters: dependencies are relative to it, never part
 		// of a pattern
 		proj = filepath.Join(root, "pr[o]j{a,b}")
+	}
+	if linkedSrc {
+		// `src` is a symbolic link to a directory outside the project: what lies behind it belongs to the project all the same
+		_ = os.MkdirAll(proj, 0o755)
+		_ = os.MkdirAll(filepath.Join(root, "store-src"), 0o755)
+		_ = os.Symlink(filepath.Join(root, "store-src"), filepath.Join(proj, "src"))
 	}
 	_ = os.MkdirAll(filepath.Join(proj, "src"), 0o755)
 	// a hidden directory at the top of every project (it sorts before every other entry, `.spok` included), holding a file
@@ -904,10 +941,36 @@ func workCase(c string) string {
 				return "BAD-CASE"
 			}
 			data := []byte("v" + p[2])
-			if p[2] == "3" {
+			switch p[2] {
+			case "3":
 				data = nil // w.<f>.3 writes an empty file
+			case "4":
+				data = []byte("1v1")
+			}
+			if p[2] == "5" {
+				// a sparse file of 64 MiB + 1 byte (all zero)
+				path := filepath.Join(proj, files[f])
+				_ = os.Remove(path)
+				if fh, err := os.Create(path); err == nil {
+					_ = fh.Truncate(64<<20 + 1)
+					fh.Close()
+				}
+				break
 			}
 			_ = os.WriteFile(filepath.Join(proj, files[f]), data, 0o644)
+		case "t":
+			if len(p) != 2 {
+				return "BAD-CASE"
+			}
+			f, _ := strconv.Atoi(p[1])
+			if f < 0 || f >= len(files) {
+				return "BAD-CASE"
+			}
+			path := filepath.Join(proj, files[f])
+			if st, err := os.Stat(path); err == nil {
+				nt := st.ModTime().Add(time.Hour)
+				_ = os.Chtimes(path, nt, nt)
+			}
 		case "d":
 			if len(p) != 2 {
 				return "BAD-CASE"
@@ -1178,6 +1241,46 @@ var alpha = map[int]alphabet{
 	9: {[]string{"w.2.1", "w.2.2", "x.A.2.2", "x.A.2.1", "f.B"}, runsOf([]string{"B", "A"})},
 	10: {[]string{"w.6.1", "w.6.2", "d.6", "w.1.2", "w.1.1"}, runsOf([]string{"A"})},
 	11: {[]string{"w.0.1", "w.0.2", "d.0", "w.2.2", "w.2.1"}, runsOf([]string{"A"})},
+	12: {[]string{"w.7.1", "w.7.2", "w.1.2", "w.0.2", "d.7"}, runsOf([]string{"B", "A"})},
+	13: {[]string{"w.1.4", "w.1.1", "d.1", "w.8.1", "d.8", "w.8.4"}, runsOf([]string{"A"})},
+}
+
+// touchFamily: the modification time of a dependency moves and nothing else: every task is still up to date (also for
+// a file too big to be worth reading twice: 64 MiB + 1, sparse)
+func touchFamily(w *bufio.Writer, big bool) {
+	for _, t := range []int{1, 2} {
+		fmt.Fprintf(w, "T%d r.AB.0.- t.0 r.AB.0.- t.1 t.0 r.AB.0.- w.0.2 r.AB.0.- t.0 r.AB.0.-\n", t)
+		fmt.Fprintf(w, "T%d w.0.3 r.AB.0.- t.0 r.AB.0.- w.0.1 t.0 r.AB.0.-\n", t)
+	}
+	fmt.Fprintf(w, "T0 r.AB.0.- t.3 r.AB.0.- t.0 r.B.0.-\n")
+	fmt.Fprintf(w, "T7 r.A.0.- t.4 t.0 r.A.0.-\n")
+	if big {
+		fmt.Fprintf(w, "T2 w.0.5 r.AB.0.- t.0 r.AB.0.- r.A.0.- w.0.1 r.A.0.- w.0.5 r.A.0.- t.0 r.A.0.-\n")
+	}
+}
+
+// linkedSrcFamily: the templates with files below `src`, in a project whose `src` is a symbolic link to a directory
+func linkedSrcFamily(w *bufio.Writer, depth int) {
+	for _, t := range []int{7, 3, 0} {
+		a := alpha[t]
+		if t == 3 {
+			a = alphabet{[]string{"w.2.1", "w.2.2", "w.3.1", "d.3"}, runsOf([]string{"A"})}
+		}
+		all := a.all()
+		var rec func(h []string)
+		rec = func(h []string) {
+			if len(h) == depth-1 {
+				for _, r := range a.runs {
+					fmt.Fprintf(w, "T%dl %s %s\n", t, strings.Join(h, " "), r)
+				}
+				return
+			}
+			for _, o := range all {
+				rec(append(h, o))
+			}
+		}
+		rec(nil)
+	}
 }
 
 // all histories of exactly `depth` events whose last event is a run (their prefixes are checked on the way)
@@ -1359,6 +1462,8 @@ func randomHistoriesMode(w *bufio.Writer, rng *rand.Rand, count int, maxDepth in
 				f := tpl.used[rng.Intn(len(tpl.used))]
 				if rng.Intn(4) == 0 {
 					ev = append(ev, fmt.Sprintf("d.%d", f))
+				} else if rng.Intn(6) == 0 {
+					ev = append(ev, fmt.Sprintf("t.%d", f))
 				} else {
 					ev = append(ev, fmt.Sprintf("w.%d.%d", f, 1+rng.Intn(3)))
 				}
@@ -1546,6 +1651,10 @@ func gen(w *bufio.Writer, args map[string]string) {
 			exhaustive(w, 9, 5)
 			exhaustive(w, 10, 6)
 			exhaustive(w, 11, 6)
+			exhaustive(w, 12, 5)
+			exhaustive(w, 13, 6)
+			touchFamily(w, true)
+			linkedSrcFamily(w, 4)
 			removalFamily(w, 2, 5)
 			removalFamily(w, 1, 4)
 			removalFamily(w, 0, 4)
@@ -1562,6 +1671,10 @@ func gen(w *bufio.Writer, args map[string]string) {
 			exhaustive(w, 9, 4) // commands that rewrite the files a later task of the same run depends on
 			exhaustive(w, 10, 5)
 			exhaustive(w, 11, 5)
+			exhaustive(w, 12, 4)
+			exhaustive(w, 13, 5)
+			touchFamily(w, prop == "C02")
+			linkedSrcFamily(w, 3)
 			removalFamily(w, 2, 4)
 			if prop == "C01" {
 				crashFamily(w, 2, 1, 8, quickTears, 2)
